@@ -11,7 +11,7 @@ for d in seeded/*/; do
   p="/verif/$d/patch.diff"
   if ! git -C /repo apply --check "$p" 2>/dev/null; then echo "SELFTEST $id: PATCH-DOES-NOT-APPLY"; rc=1; continue; fi
   git -C /repo apply "$p"
-  out=$(./check "$prop" --tier quick 2>&1 | grep -E "^VIOLATION" | head -1)
+  out=$(VERIF_NO_EVIDENCE=1 ./check "$prop" --tier quick 2>&1 | grep -E "^VIOLATION" | head -1)
   git -C /repo apply -R "$p"
   if [ -n "$(git -C /repo status --porcelain)" ]; then echo "SELFTEST $id: /repo not restored"; git -C /repo checkout -q -- . ; rc=1; fi
   if [ -z "$out" ]; then echo "SELFTEST $id: MISSED"; rc=1; else echo "SELFTEST $id: detected (${out#*obligation=})"; fi
